@@ -212,8 +212,74 @@ func firstWords(s string) string {
 
 var tokRe = regexp.MustCompile(`[A-Za-z_][A-Za-z0-9_]*|[0-9]+|\s+|.`)
 
+// ---------- prompt termination without a clock: work as a function of nesting depth ----------
+
+// nested builds a template whose body nests one construct to the given depth.
+func nested(family string, depth int) string {
+	var open, close strings.Builder
+	for i := 0; i < depth; i++ {
+		ind := strings.Repeat("\t", i+1)
+		switch family {
+		case "else if":
+			open.WriteString(ind + "if a {\n" + ind + "\t<p>x</p>\n" + ind + "} else if b {\n")
+			close.WriteString(strings.Repeat("\t", depth-i) + "}\n")
+		case "else { if }":
+			open.WriteString(ind + "if a {\n" + ind + "\t<p>x</p>\n" + ind + "} else {\n")
+			close.WriteString(strings.Repeat("\t", depth-i) + "}\n")
+		case "if":
+			open.WriteString(ind + "if a {\n")
+			close.WriteString(strings.Repeat("\t", depth-i) + "}\n")
+		case "for":
+			open.WriteString(ind + "for _, v := range xs {\n")
+			close.WriteString(strings.Repeat("\t", depth-i) + "}\n")
+		case "switch":
+			open.WriteString(ind + "switch a {\n" + ind + "case true:\n")
+			close.WriteString(strings.Repeat("\t", depth-i) + "}\n")
+		case "element":
+			open.WriteString(ind + "<div class={ c }>\n")
+			close.WriteString(strings.Repeat("\t", depth-i) + "</div>\n")
+		case "call block":
+			open.WriteString(ind + "@wrap(a) {\n")
+			close.WriteString(strings.Repeat("\t", depth-i) + "}\n")
+		}
+	}
+	return "package p\n\ntempl T(a, b bool, xs []string, c string) {\n" + open.String() + strings.Repeat("\t", depth+1) + "<p>{ c }</p>\n" + close.String() + "}\n"
+}
+
+// workOf counts the heap allocations of one ParseString call (nothing else runs yet): a measure of work that does
+// not depend on how busy the machine is.
+func workOf(src string) (uint64, bool) {
+	var a, b runtime.MemStats
+	runtime.GC()
+	runtime.ReadMemStats(&a)
+	_, err := parser.ParseString(src)
+	runtime.ReadMemStats(&b)
+	return b.Mallocs - a.Mallocs, err == nil
+}
+
+// growth: "terminates promptly" is decided without a clock. For every nesting construct the work of parsing depth 10
+// may be at most 12 times the work of depth 5 (twice the input; the Go expression scanner re-reads the rest of the file
+// per expression, which is quadratic): a construct whose work doubles with every level shows a factor of 30 and more.
+func growth() {
+	res := map[string]any{}
+	for _, family := range []string{"else if", "else { if }", "if", "for", "switch", "element", "call block"} {
+		w5, ok5 := workOf(nested(family, 5))
+		w10, ok10 := workOf(nested(family, 10))
+		if !ok5 || !ok10 || w5 == 0 {
+			vlib.Fatal("nesting family %q does not parse (%v %v)", family, ok5, ok10)
+		}
+		ratio := float64(w10) / float64(w5)
+		res[family] = map[string]any{"allocations_depth_5": w5, "allocations_depth_10": w10, "ratio": fmt.Sprintf("%.1f", ratio)}
+		if ratio > 12 {
+			run.Violation("parser-work-doubles-per-nesting-level:"+family, fmt.Sprintf("parsing %q nested 10 deep takes %.0f times the allocations of 5 deep (%d vs %d): the work grows exponentially with the depth, a few hundred bytes of input take minutes", family, ratio, w10, w5), map[string]any{"family": family, "input_depth_10": nested(family, 10)})
+		}
+	}
+	run.Cov["work_growth_by_nesting_construct"] = res
+}
+
 func main() {
 	run = vlib.Start("C06", "exploration")
+	growth()
 	corpus := tgen.Corpus()
 	alphabet := []string{"templ T() {", "}", "{", "{{", "}}", "<div>", "</div>", "<br/>", "<script>", "</script>", "<style>", "<!--", "-->", "if x {", "} else {", "for _, x := range xs {", "switch x {", "case 1:", "@c()", "\"", "'", "`", "é", "\r\n"}
 	var prefixes, edits, seqs, seqLen int
